@@ -1841,6 +1841,8 @@ package gomatrixserverlib
 //@   loop 3: invariant 0 <= idx(3) && idx(3) <= len(allEvents) && (forall i int :: 0 <= i && i < idx(3) ==> (errors[i] != nil ==> allEvents[i].EventID() in failures))
 //@   loop 4: invariant 0 <= idx(4) && idx(4) <= len(allEvents) && (forall id string :: id in eventsByID ==> (exists i int :: 0 <= i && i < len(allEvents) && allEvents[i] == eventsByID[id] && errors[i] == nil))
 //@   loop 5: invariant 0 <= idx(5) && idx(5) <= len(allEvents) && (!called(checkAllowedByAuthEvents) ==> (forall id string :: id in eventsByID ==> (exists i int :: 0 <= i && i < len(allEvents) && allEvents[i] == eventsByID[id] && errors[i] == nil)))
+//@   loop 6: invariant 0 <= i && i <= len(authEvents) && (forall j int :: 0 <= j && j < i ==> !(authEvents[j].EventID() in failures))
+//@   loop 7: invariant 0 <= i && i <= len(stateEvents) && (forall j int :: 0 <= j && j < i ==> !(stateEvents[j].EventID() in failures))
 
 //@ func CheckSendJoinResponse
 //@   property C14
